@@ -104,7 +104,7 @@ CLAIMED = {
    design="7/C06", technique="Coq invariant proofs over the failing-child loop + corollary of the DAG edge-token invariant + differential correspondence + oracle",
    note="Executor failures (completion at idle polls, during a local sibling's call, inside submit), nested macros and suppression "
         "at depth are covered by the oracle, not by the Fail.v model. No open finding: S6, S26, S27 were repaired in /repo "
-        "(46849a9, a65bcde, 6fe5477)."),
+        "(46849a9, a65bcde, 6fe5477 + 821e619)."),
  "C17": dict(
    text="Coq theorems over Wrap.v (signature description -> input/output channels, set_input_values vs python's own binding, "
         "output labels declared or scraped, single/multi output storing, run = bare function over every construction/call split "
